@@ -146,7 +146,7 @@ def git_index(req):
         if r.returncode:
             return {"giterr": r.stderr.decode("latin1")[:200]}
         for n in req.get("skip", []):
-            _git(["update-index", "--skip-worktree", os.fsdecode(R(n))], d)
+            _git(["update-index", "--skip-worktree", "--", os.fsdecode(R(n))], d)
         listed = _git(["ls-files", "--stage", "-z"], d).stdout
         want = []
         for rec in listed.split(b"\0"):
